@@ -97,7 +97,7 @@ def run(ctx):
 
     # ------------------------------------------------------------------ GEN: histogram cases, replayed on a real DeepStats
     cases, r = ctx.gen("dir/GenDeepHistogram", "SPECIFICATION Spec\nINVARIANT TableOK\nCHECK_DEADLOCK FALSE\n", coverage=False, workers=1)
-    res = ctx.impl("harness/deepres_driver.py", ["--agg", 120 if q else 1500, "--stats", 14 if q else 200, "--check", 18 if q else 250],
+    res = ctx.impl("harness/deepres_driver.py", ["--agg", 120 if q else 3000, "--stats", 14 if q else 300, "--check", 18 if q else 400],
                    input_obj={"cases": cases}, timeout=20000)
     if len(res["hist"]) != len(cases):
         raise core.MachineryError("driver answered %d of %d histogram cases" % (len(res["hist"]), len(cases)))
